@@ -130,6 +130,8 @@ class LtsParser(HParser):
                     e = Node("assign", op, e, rhs)
                 if self.at(";"):
                     self.eat()
+                    if e.op == "macro" and e.args and e.args[0] in ("debug_assert", "debug_assert_eq", "debug_assert_ne"):
+                        continue   # no release semantics; a failing one panics in the correspondence runs (debug assertions on)
                     stmts.append(Node("stmt", e))
                 elif e.op in ("if", "match", "block", "for", "loop") and self.peek().kind != "eof":
                     stmts.append(Node("stmt", e))
